@@ -143,6 +143,14 @@ class Prop(BaseProp):
                 w = impl.build_tree(t)
                 if not (l1.contains(w, impl.build_tree([T('sym'), t[1], t[2]])) and l1.contains(w, impl.build_tree([T('sym'), t[3], t[4]]))):
                     return Verdict('spec', case, 'a WITH pair does not contain its parts', impl=t, tags=tags)
+                # a single license whose key spells like the rendering of the pair is another license: not equivalent to the
+                # pair in either direction (soundness, symmetry), and neither contains the other
+                twin = impl.le.LicenseSymbol(t[1] + ' WITH ' + t[3])
+                ans = [l1.is_equivalent(twin, w), l1.is_equivalent(w, twin), l1.contains(twin, w), l1.contains(w, twin),
+                       l2.is_equivalent(twin, w), l2.is_equivalent(w, twin)]
+                if any(ans):
+                    return Verdict('spec', case, 'a WITH pair and the single license whose key spells like it: [equiv(s,p), equiv(p,s), contains(s,p), contains(p,s), ...]',
+                                   impl=ans, model=[False] * 6, tags=tags)
         # the string level against the model's equivText / containsText: the two trees written as texts in any spelling the
         # grammar allows (the table-backed instance parses them), now and then an empty or blank side
         r = _random.Random(len(repr(b)) * 3 + len(repr(a)))
